@@ -43,7 +43,12 @@ def main(argv):
               "[extraction %.1fs]" % (len(fx.tus), chk.inventory["functions"],
                                       chk.inventory["instantiated_functions"], chk.inventory["pattern_functions"],
                                       chk.inventory["records"], chk.inventory["vars"], fx.extract_s))
-        mod.check(chk, fx)
+        try:
+            mod.check(chk, fx)
+        finally:
+            # findings in functions that now use helpers unknown to the analysis are not verdicts (see guard.py)
+            from ctpgsa import guard
+            guard.apply(chk, fx)
         if tier == "thorough" and not chk.violations and not os.environ.get("CTPGSA_EVIDENCE_DIR"):
             from ctpgsa import selftest
             selftest.run(chk, pid)
